@@ -12,11 +12,12 @@ for d in sorted(glob.glob(os.path.join(here, "seeded", "*"))):
     res = json.load(open(os.path.join(d, "result.json"))) if os.path.exists(os.path.join(d, "result.json")) else {}
     caught = [p for p, r in res.items() if r.get("exit") == 1]
     clauses = sorted({c for p, r in res.items() if r.get("exit") == 1 for c in r.get("violating_clauses", [])})[:4]
-    bp = os.path.join(d, "result.round2-before.json")
+    rnd = re.search(r"-R(\d)", d)
+    bp = os.path.join(d, "result.round%s-before.json" % (rnd.group(1) if rnd else "0"))
     before = ""
     if os.path.exists(bp):
         b = json.load(open(bp))
-        before = " (round 2; before strengthening: %s)" % ("caught" if any(r.get("exit") == 1 for r in b.values()) else
+        before = " (round " + rnd.group(1) + "; before strengthening: %s)" % ("caught" if any(r.get("exit") == 1 for r in b.values()) else
                                                            "exit 2" if any(r.get("exit") == 2 for r in b.values()) else "missed")
     rows.append("| %s | %s | %s | %s | %s |" % (
         os.path.basename(d), ", ".join(os.path.basename(f) for f in meta.get("files", []))[:60],
@@ -24,8 +25,8 @@ for d in sorted(glob.glob(os.path.join(here, "seeded", "*"))):
         re.sub(r"\s+", " ", meta.get("needs", ""))[:150].replace("|", "/"),
         ((", ".join(caught) + ": `" + "`, `".join(clauses) + "`") if caught else "**not caught**") + before))
 table = ("## 14. Seeded changes and which checks catch them\n\n"
-         "Written in two rounds by 20 + 20 independent sub-agents (one per property and round, two changes each; the second round was\n"
-         "asked for subtler changes) that saw only the property text and a scratch worktree.  Each change compiles, passes the unedited suite, and comes with a demonstration test that fails with the change\n"
+         "Written in three rounds by 20 + 20 + 20 independent sub-agents (one per property and round, two changes each; the second round was\n"
+         "asked for subtler changes, the third for the less prominent clauses, shared helpers and interactions between operations) that saw only the property text and a scratch worktree.  Each change compiles, passes the unedited suite, and comes with a demonstration test that fails with the change\n"
          "and passes without it (re-confirmed with tools/confirm_seeded.sh).  `tools/try_seeded.py` applies the patch to /repo, runs the\n"
          "quick check(s), restores /repo and writes result.json.  Where a check first missed a change it was strengthened (see the\n"
          "commit log of /verif and section 0.45); the column shows the state after strengthening.\n\n"
